@@ -1108,7 +1108,7 @@ register_setx(RegisterTable *t, const RegisterHandle idx,
         return rv;
     }
 
-    if (idx > t->entries) {
+    if (idx >= t->entries) {
         rv.code = REG_ACCESS_NOENTRY;
         rv.address = idx;
         return rv;
